@@ -81,22 +81,5 @@ REG.fn(E, "SATEncoder._encode_exactly_one", prop="C06", types={"lits": "list[int
 # stays with the bounded back end.  Likewise the encoders taking tuples/lists of IntVar objects (all_different,
 # sum_*, circuit, cumulative, no_overlap's outer loop) are outside the subset (objects inside sequences).
 
-OV = "(not (a + dur1 <= b) and not (b + dur2 <= a))"
-T1 = "sigma(get(start1.bool_vars, a))"
-T2 = "sigma(get(start2.bool_vars, b))"
-DOM = ["wf(start1)", "wf(start2)",
-       "forall(a, iff(has(start1.bool_vars, a), start1.lb <= a <= start1.ub), trig=has(start1.bool_vars, a))",
-       "forall(b, iff(has(start2.bool_vars, b), start2.lb <= b <= start2.ub), trig=has(start2.bool_vars, b))"]
-REG.fn(E, "SATEncoder._encode_disjunctive_le", prop="C06",
-       types={"start1": "obj<IntVar>", "start2": "obj<IntVar>", "dur1": "int", "dur2": "int"},
-       lemmas=["enc"], requires=DOM,
-       ensures=["prefix_kept(self)",
-                # no-overlap of the two intervals, for the start values sigma decodes to
-                "forall(x, y, implies(decodes(start1, x) and decodes(start2, y), iff(newsat(self), x + dur1 <= y or y + dur2 <= x)))"],
-       modifies=["self._clauses"],
-       loops={1: LoopSpec(invariants=[
-                  "prefix_kept(self)",
-                  "iff(newsat(self), forall(a, b, implies(start1.lb <= a < s1 and start2.lb <= b <= start2.ub and " + OV + ", not (" + T1 + " and " + T2 + ")), trig=((get(start1.bool_vars, a), get(start2.bool_vars, b)),)))"]),
-              2: LoopSpec(invariants=[
-                  "prefix_kept(self)", "start1.lb <= s1 <= start1.ub",
-                  "iff(newsat(self), forall(a, b, implies(((start1.lb <= a < s1 and start2.lb <= b <= start2.ub) or (a == s1 and start2.lb <= b < s2)) and " + OV + ", not (" + T1 + " and " + T2 + ")), trig=((get(start1.bool_vars, a), get(start2.bool_vars, b)),)))"])})
+# _encode_disjunctive_le (two nested range loops) was proved with per-row ghost snapshots, but its inner
+# preservation obligation needed 3-12 s depending on machine load: not stably fast, so not claimed (bounded only).
